@@ -23,7 +23,7 @@ ASSUMPTIONS = ['irregular and 2D sources are outside the statement (output must 
 def cases(tier, seed):
     rng = random.Random('C10/%s' % seed)
     out = []
-    reps = 1 if tier == 'quick' else 10
+    reps = 3 if tier == 'quick' else 12
     for rep in range(reps):
         lays = [('default', r, b) for r, b in files.LAYOUTS_3D['default']] + [('zslice', r, b) for r, b in files.LAYOUTS_3D['zslice']] + \
                [('general', r, b) for r, b in files.LAYOUTS_3D['general']]
